@@ -519,6 +519,99 @@ Definition expected_view (img : list Z) (d : dyninfo) : list dyntag :=
   let m := e_machine (di_eh d) in let o := e_osabi (di_eh d) in
   map (expected_tag (spec_dtab m o) (spec_is_solaris m o) (strtab_bytes d img)) (di_entries d).
 
+(* everything consistent_b and stripped_of_b say, in the model's terms *)
+Record vctx (img img' : list Z) (d : dyninfo) (f f' : elf) (sp : Z) : Prop := {
+  c_open : elf_open img = Ok f;  c_open' : elf_open img' = Ok f';
+  c_img : f_img f = img;  c_img' : f_img f' = img';
+  c_le' : f_le f' = f_le f;  c_64' : f_is64 f' = f_is64 f;
+  c_mach' : e_machine (f_eh f') = e_machine (f_eh f);
+  c_dtab : f_dtab f = spec_dtab (e_machine (f_eh f)) (e_osabi (f_eh f));
+  c_dtab' : f_dtab f' = spec_dtab (e_machine (f_eh f)) (e_osabi (f_eh f));
+  c_pt : forall val name, In (val, name) spec_pt_names -> name_is (f_ptab f) val name;
+  c_sht : forall val name, In (val, name) spec_sht_names -> name_is (f_stab f) val name;
+  c_pt' : forall val name, In (val, name) spec_pt_names -> name_is (f_ptab f') val name;
+  c_sht' : forall val name, In (val, name) spec_sht_names -> name_is (f_stab f') val name;
+  c_same : same_behind (ehdr_size (f_is64 f)) img img';
+  c_ehpos : 0 < ehdr_size (f_is64 f);
+  c_ss : section_headers f = Ok (di_shdrs d);  c_ss' : section_headers f' = Ok [];
+  c_ps : segment_headers f = Ok (di_phdrs d);  c_ps' : segment_headers f' = Ok (di_phdrs d);
+  c_sec : filter (fun s => sh_type s =? SHT_DYNAMIC) (di_shdrs d) = [di_sec d];
+  c_str : section_header f (sh_link (di_sec d)) = Ok (di_str d);
+  c_strty : sh_type (di_str d) = SHT_STRTAB;
+  c_seg : first_where (fun p => p_type p =? PT_DYNAMIC) (di_phdrs d) = Some (di_seg d);
+  c_fs : 0 < p_filesz (di_seg d);
+  c_segoff : ehdr_size (f_is64 f) <= p_offset (di_seg d);
+  c_secoff : ehdr_size (f_is64 f) <= sh_offset (di_sec d);
+  c_es_sec : dyn_table (f_le f) (f_is64 f) (seekz img (sh_offset (di_sec d))) = Some (di_entries d);
+  c_es_seg : dyn_table (f_le f) (f_is64 f) (seekz img (p_offset (di_seg d))) = Some (di_entries d);
+  c_sp : first_val DT_STRTAB (di_entries d) = Some sp;  c_spnz : sp <> 0;
+  c_spmap : addr_to_off (di_phdrs d) sp (sh_size (di_str d)) = Some (sh_offset (di_str d));
+  c_stroff : ehdr_size (f_is64 f) <= sh_offset (di_str d);
+  c_strlen : 0 <= sh_size (di_str d);
+  c_strend : sh_offset (di_str d) + sh_size (di_str d) <= zlen img;
+  c_strings : strings_ok (spec_is_solaris (e_machine (f_eh f)) (e_osabi (f_eh f))) (strtab_bytes d img) (di_entries d) = true;
+  c_eh : f_eh f = di_eh d;  c_64 : f_is64 f = di_is64 d;  c_le : f_le f = di_le d
+}.
+
+Lemma consistent_ctx img img' d :
+  describe img = Some d -> consistent_b img = true -> stripped_of_b img img' = true ->
+  exists f f' sp, vctx img img' d f f' sp.
+Proof.
+  intros Hd Hc Hst. unfold consistent_b in Hc. rewrite Hd in Hc.
+  rewrite !andb_true_iff in Hc.
+  destruct Hc as [[[[[[[[[[[[[K1 K2] K3] K4] K5] K6] K7] K8] K9] _] _] _] _] _].
+  destruct (describe_inv _ _ Hd) as [Hso [D1 [D2 [D3 [D4 [D5 [D6 [prs [srs [Rp [Rs [Eps [Ess [Hseg [Hsec [Hstr Hes]]]]]]]]]]]]]]]].
+  destruct (spec_open_elf_open _ _ _ _ Hso) as [f [Ho [Hi [Hle [His Heh]]]]].
+  destruct (elf_open_inv _ _ Ho) as [_ [HT [Hpt Hsht]]].
+  destruct (dyn_table (di_le d) (di_is64 d) (seekz img (sh_offset (di_sec d)))) as [es2|] eqn:Hes2; [|discriminate].
+  apply dents_eqb_eq in K6. subst es2.
+  destruct (first_val DT_STRTAB (di_entries d)) as [sp|] eqn:Hsp; [|discriminate].
+  destruct (ptr_ok (di_is64 d) img (di_phdrs d) sp (sh_size (di_str d))) as [soff|] eqn:Hptr; [|discriminate].
+  destruct (ptr_ok_inv _ _ _ _ _ _ Hptr) as [Hmap [Hnz [Hlen0 [Hoff1 Hoff2]]]].
+  assert (Hsoff : soff = sh_offset (di_str d)) by lia. subst soff.
+  assert (Heh0 : 0 < ehdr_size (di_is64 d)) by (destruct (di_is64 d); cbn; lia).
+  assert (Hph0 : 0 < phdr_size (di_is64 d)) by (destruct (di_is64 d); cbn; lia).
+  destruct (stripped_of_inv _ _ Hst) as [le [is64 [h [h' [Hso1 [Hso' [E1 [E2 [E3 [E4 [E5 [E6 Hsame]]]]]]]]]]]].
+  rewrite Hso in Hso1. inversion Hso1; subst le is64 h. clear Hso1.
+  destruct (spec_open_elf_open _ _ _ _ Hso') as [f' [Ho' [Hi' [Hle' [His' Heh']]]]].
+  destruct (elf_open_inv _ _ Ho') as [_ [HT' [Hpt' Hsht']]].
+  rewrite Heh', E1, E2 in HT'.
+  rewrite <- Hle, <- His, <- Heh in *.
+  exists f, f', sp. constructor; try assumption; try (rewrite Heh'; assumption);
+    try (clear - K1 K2 K3 K7; lia).
+  - rewrite Ess. apply section_headers_read; try zl. rewrite Hi. exact Rs.
+  - apply section_headers_stripped. rewrite Heh'. exact E6.
+  - rewrite Eps. apply segment_headers_read; try zl. rewrite Hi. exact Rp.
+  - rewrite Eps. apply segment_headers_read; rewrite ?Heh', ?His', ?Hle', ?Hi', ?E3, ?E4, ?E5; try zl.
+    rewrite <- (read_recs_same_behind _ (ehdr_size (f_is64 f)) img img') by (assumption || zl). exact Rp.
+  - apply (section_header_nth f srs); try zl; [rewrite Hi; exact Rs | rewrite <- Ess; exact Hstr].
+Qed.
+
+Section with_ctx.
+Variables (img img' : list Z) (d : dyninfo) (f f' : elf) (sp : Z).
+Hypothesis C : vctx img img' d f f' sp.
+Let m := e_machine (f_eh f).
+Let o := e_osabi (f_eh f).
+
+(* the string table seen from the original and from the stripped image *)
+Lemma ctx_split : exists pre2 tail2, img = pre2 ++ strtab_bytes d img ++ tail2 /\ zlen pre2 = sh_offset (di_str d).
+Proof.
+  destruct C. apply img_split; lia.
+Qed.
+Lemma ctx_split' : exists pre2 tail2, img' = pre2 ++ strtab_bytes d img ++ tail2 /\ zlen pre2 = sh_offset (di_str d).
+Proof.
+  destruct C. exists (firstn (Z.to_nat (sh_offset (di_str d))) img'),
+                     (skipn (Z.to_nat (sh_size (di_str d))) (seekz img' (sh_offset (di_str d)))). split.
+  - unfold strtab_bytes. rewrite (same_behind_seekz _ _ _ (sh_offset (di_str d)) c_same0) by lia.
+    rewrite firstn_skipn, seekz_skipn, firstn_skipn. reflexivity.
+  - destruct c_same0 as [Hl _]. unfold zlen in *. rewrite firstn_length. lia.
+Qed.
+Lemma ctx_es_seg' : dyn_table (f_le f') (f_is64 f') (seekz (f_img f') (p_offset (di_seg d))) = Some (di_entries d).
+Proof.
+  destruct C. rewrite c_img'0, c_le'0, c_64'0, <- (same_behind_seekz _ _ _ _ c_same0) by lia. assumption.
+Qed.
+End with_ctx.
+
 Theorem views_agree_tags img img' :
   consistent_b img = true -> stripped_of_b img img' = true ->
   exists d, describe img = Some d /\
@@ -526,73 +619,30 @@ Theorem views_agree_tags img img' :
     segment_tags img = Ok (expected_view img d) /\
     segment_tags img' = Ok (expected_view img d).
 Proof.
-  intros Hc Hst. unfold consistent_b in Hc. destruct (describe img) as [d|] eqn:Hd; [|discriminate].
+  intros Hc Hst. destruct (describe img) as [d|] eqn:Hd; [|unfold consistent_b in Hc; rewrite Hd in Hc; discriminate].
   exists d. split; [reflexivity|].
-  rewrite !andb_true_iff in Hc.
-  destruct Hc as [[[[[[[[[[[[[K1 K2] K3] K4] K5] K6] K7] K8] K9] _] _] _] _] _].
-  destruct (describe_inv _ _ Hd) as [Hso [D1 [D2 [D3 [D4 [D5 [D6 [prs [srs [Rp [Rs [Eps [Ess [Hseg [Hsec [Hstr Hes]]]]]]]]]]]]]]]].
-  destruct (spec_open_elf_open _ _ _ _ Hso) as [f [Ho [Hi [Hle [His Heh]]]]].
-  destruct (elf_open_inv _ _ Ho) as [_ [HT [Hpt Hsht]]].
-  (* the section's copy of the array is the segment's *)
-  destruct (dyn_table (di_le d) (di_is64 d) (seekz img (sh_offset (di_sec d)))) as [es2|] eqn:Hes2; [|discriminate].
-  apply dents_eqb_eq in K6. subst es2.
-  (* the string table, through the link and through DT_STRTAB *)
-  destruct (first_val DT_STRTAB (di_entries d)) as [sp|] eqn:Hsp; [|discriminate].
-  destruct (ptr_ok (di_is64 d) img (di_phdrs d) sp (sh_size (di_str d))) as [soff|] eqn:Hptr; [|discriminate].
-  destruct (ptr_ok_inv _ _ _ _ _ _ Hptr) as [Hmap [Hnz [Hlen0 [Hoff1 Hoff2]]]].
-  assert (Hsoff : soff = sh_offset (di_str d)) by zl. subst soff.
-  assert (Heh0 : 0 < ehdr_size (di_is64 d)) by (destruct (di_is64 d); cbn; lia).
-  assert (Hph0 : 0 < phdr_size (di_is64 d)) by (destruct (di_is64 d); cbn; lia).
-  destruct (img_split img (sh_offset (di_str d)) (sh_size (di_str d)) ltac:(zl) Hlen0 Hoff2) as [pre2 [tail2 [Hsplit Hpre2]]].
-  fold (strtab_bytes d img) in Hsplit.
-  (* headers as the model reads them *)
-  rewrite <- Hle, <- His, <- Heh in *.
-  assert (Hss : section_headers f = Ok (di_shdrs d)).
-  { rewrite Ess. apply section_headers_read; try zl. rewrite Hi. exact Rs. }
-  assert (Hsh : section_header f (sh_link (di_sec d)) = Ok (di_str d)).
-  { apply (section_header_nth f srs); try zl; [rewrite Hi; exact Rs | rewrite <- Ess; exact Hstr]. }
-  assert (Hps : segment_headers f = Ok (di_phdrs d)).
-  { rewrite Eps. apply segment_headers_read; try zl. rewrite Hi. exact Rp. }
+  destruct (consistent_ctx _ _ _ Hd Hc Hst) as [f [f' [sp C]]].
+  destruct (ctx_split _ _ _ _ _ _ C) as [pre2 [tail2 [Hsplit Hpre2]]].
+  destruct (ctx_split' _ _ _ _ _ _ C) as [pre2' [tail2' [Hsplit' Hpre2']]].
+  pose proof (ctx_es_seg' _ _ _ _ _ _ C) as Hes'.
+  destruct C.
   assert (Hexp : expected_view img d =
                  map (expected_tag (f_dtab f) (spec_is_solaris (e_machine (f_eh f)) (e_osabi (f_eh f))) (strtab_bytes d img))
                      (di_entries d)).
-  { unfold expected_view. rewrite HT, Heh. reflexivity. }
-  rewrite Hexp. fold (strings_ok (spec_is_solaris (e_machine (f_eh f)) (e_osabi (f_eh f))) (strtab_bytes d img) (di_entries d)) in K9.
-  split; [|split].
-  - unfold section_tags. rewrite Ho. cbn [bind].
-    apply (section_view f _ _ HT Hsht (di_shdrs d) (di_sec d) (di_str d) (di_entries d) pre2 _ tail2); try assumption; try zl;
-      rewrite Hi; assumption.
-  - unfold segment_tags. rewrite Ho. cbn [bind].
-    apply (segment_view_full f _ _ HT Hsht Hpt (di_shdrs d) (di_sec d) (di_str d) (di_phdrs d) (di_seg d) (di_entries d) sp
-                             (sh_size (di_str d)) pre2 _ tail2); try assumption; try zl; try (rewrite Hi; assumption).
-    rewrite Hpre2. exact Hmap.
-  - (* the stripped image *)
-    destruct (stripped_of_inv _ _ Hst) as [le [is64 [h [h' [Hso1 [Hso' [E1 [E2 [E3 [E4 [E5 [E6 Hsame]]]]]]]]]]]].
-    rewrite Hso in Hso1. inversion Hso1; subst le is64 h. clear Hso1.
-    destruct (spec_open_elf_open _ _ _ _ Hso') as [f' [Ho' [Hi' [Hle' [His' Heh']]]]].
-    destruct (elf_open_inv _ _ Ho') as [_ [HT' [Hpt' Hsht']]].
-    rewrite Heh', E1, E2 in HT'.
-    assert (Hdt : f_dtab f' = f_dtab f) by congruence.
-    unfold segment_tags. rewrite Ho'. cbn [bind]. rewrite <- Hdt.
-    assert (Hsplit' : img' = firstn (Z.to_nat (sh_offset (di_str d))) img' ++ strtab_bytes d img ++
-                             skipn (Z.to_nat (sh_size (di_str d))) (seekz img' (sh_offset (di_str d)))).
-    { unfold strtab_bytes. rewrite (same_behind_seekz _ _ _ (sh_offset (di_str d)) Hsame) by zl.
-      rewrite firstn_skipn, seekz_skipn, firstn_skipn. reflexivity. }
-    assert (Hpre' : zlen (firstn (Z.to_nat (sh_offset (di_str d))) img') = sh_offset (di_str d)).
-    { destruct Hsame as [Hl _]. unfold zlen in *. rewrite firstn_length. lia. }
-    apply (segment_view_stripped f' _ _ HT' Hpt' (di_phdrs d) (di_seg d) (di_entries d) sp (sh_size (di_str d))
-             (firstn (Z.to_nat (sh_offset (di_str d))) img') (strtab_bytes d img)
-             (skipn (Z.to_nat (sh_size (di_str d))) (seekz img' (sh_offset (di_str d))))).
-    + apply section_headers_stripped. rewrite Heh'. exact E6.
-    + rewrite Eps. apply segment_headers_read; rewrite ?Heh', ?His', ?Hle', ?Hi', ?E3, ?E4, ?E5; try zl.
-      rewrite <- (read_recs_same_behind _ (ehdr_size (f_is64 f)) img img') by (assumption || zl). exact Rp.
-    + exact Hseg.
-    + zl.
-    + zl.
-    + rewrite Hi', Hle', His', <- (same_behind_seekz _ _ _ _ Hsame) by zl. exact Hes.
-    + rewrite Hi'. exact Hsplit'.
-    + exact Hsp.
-    + exact Hnz.
-    + rewrite Hpre'. exact Hmap.
-    + exact K9.
+  { unfold expected_view. rewrite c_dtab0, c_eh0. reflexivity. }
+  rewrite Hexp. split; [|split].
+  - unfold section_tags. rewrite c_open0. cbn [bind].
+    apply (section_view f _ _ c_dtab0 c_sht0 (di_shdrs d) (di_sec d) (di_str d) (di_entries d) pre2 _ tail2);
+      try assumption; try lia; rewrite c_img0; assumption.
+  - unfold segment_tags. rewrite c_open0. cbn [bind].
+    apply (segment_view_full f _ _ c_dtab0 c_sht0 c_pt0 (di_shdrs d) (di_sec d) (di_str d) (di_phdrs d) (di_seg d)
+                             (di_entries d) sp (sh_size (di_str d)) pre2 _ tail2);
+      try assumption; try lia; try (rewrite c_img0; assumption).
+    rewrite Hpre2. assumption.
+  - unfold segment_tags. rewrite c_open'0. cbn [bind]. rewrite <- c_dtab0, <- c_dtab'0 at 1.
+    rewrite c_dtab0 in c_dtab'0.
+    apply (segment_view_stripped f' _ _ c_dtab0 c_pt'0 (di_phdrs d) (di_seg d) (di_entries d) sp (sh_size (di_str d))
+                                 pre2' _ tail2'); try assumption; try lia.
+    + rewrite c_img'0. exact Hsplit'.
+    + rewrite Hpre2'. assumption.
 Qed.
